@@ -120,7 +120,10 @@ Definition lookup_lines (f : file) : res (list line) :=
              [0; 1; 255; 256; 4294967295]
       ++ [[21; 6; nl; 0; 0]]
       ++ map (fun i => [21; 6; -1; i; i]) (ziota nl)
-      ++ [[21; 7; zcard (f_tilesets f); b2z (zcard (f_tilesets f) =? 0); 0]]).
+      ++ [[21; 7; zcard (f_tilesets f); b2z (zcard (f_tilesets f) =? 0); 0]]
+      (* the iterator protocol of layers(): count(), last(), nth(1), next() / last() after a full drain, skip(n).last() *)
+      ++ [[21; 8; 0; 0; nl]; [21; 8; 1; 0; if 1 <=? nl then nl - 1 else -1]; [21; 8; 2; 0; if 2 <=? nl then 1 else -1];
+          [21; 8; 3; 0; -1]; [21; 8; 4; 0; -1]; [21; 8; 5; 0; -1]]).
 
 Definition section_struct (f : file) : res (list line) :=
   durs <-- rmapM (fun i => d <-- frame_duration f i ;;; Ok [3; i; d]) (ziota (num_frames f)) ;;;
